@@ -339,6 +339,10 @@ static int ex_region(char *loc, int *beg, int *end)
 	while (*loc) {
 		int end0 = *end;
 		*end = ex_lineno(&loc) + 1;
+		if (*end < 0) {		/* unset mark, failed search or negative line */
+			*beg = -1;
+			break;
+		}
 		*beg = naddr++ ? end0 - 1 : *end - 1;
 		if (!naddr++)
 			*beg = *end - 1;
